@@ -683,16 +683,14 @@ func seq(lo, hi int) []int {
 
 // sweepLengths: the lengths of the Sum sweep of one hasher.
 // full: 0 .. 3*block+2. Otherwise one full period of the padding logic and the first crossing
-// (Merkle-Damgard: 0 .. 2*block+2, sponge: 0 .. rate+2) plus every later boundary +-1.
+// (0 .. block+2) plus every later boundary +-1 up to 3*block+2 (the padding code of all three
+// constructions depends on the length only through len%block and the number of blocks).
 func sweepLengths(s *binSpec, full bool) (lens []int, what string) {
 	max := 3*s.block + 2
 	if full {
 		return seq(0, max), fmt.Sprintf("0..%d", max)
 	}
 	upto := s.block + 2
-	if s.md {
-		upto = 2*s.block + 2
-	}
 	lens = seq(0, upto)
 	what = fmt.Sprintf("0..%d + boundaries+-1 up to %d", upto, max)
 	if s.block > 104 {
@@ -748,7 +746,10 @@ func TestBinSweep(t *testing.T) {
 			lens, what = sweepLengths(s, plan[s.name] == "full")
 			rec.Extra("enumerated-lengths:"+s.name, what)
 		default:
-			lens = s.boundaryLengths(2*s.block + 1)
+			lens = s.boundaryLengths(s.block + 1)
+			if ev.Tier() == "thorough" {
+				lens = s.boundaryLengths(2*s.block + 1)
+			}
 		}
 		for _, l := range thin(lens) {
 			items = append(items, BinItem{Hash: s.name, Msg: makeContent(p, l), Chunks: makeChunks(p, l), Mode: "sum"})
@@ -864,7 +865,7 @@ func TestBinRandom(t *testing.T) {
 	rec.SetRule(rule)
 	all := []string{"sha256", "sha256", "ripemd160", "sha3-256", "sha3-384", "sha3-512", "keccak-256", "keccak-512"}
 	g := genBinItem(all, []string{"sum", "fixed", "fixed", "fixed"}).Filter(func(it BinItem) bool { return !fixedMax0Excluded(it) })
-	rec.Check(t, "bin", ev.N(6, 280), func(rt *rapid.T) {
+	rec.Check(t, "bin", ev.N(5, 280), func(rt *rapid.T) {
 		b := BinBatch{Field: rapid.SampledFrom(curveNames).Draw(rt, "field"), Engine: "test"}
 		b.Items = rapid.SliceOfN(g, randomBatch, randomBatch).Draw(rt, "items")
 		// run the batch as parallel sub-batches (the outcome does not depend on the split)
@@ -1082,13 +1083,12 @@ func TestBinCompiled(t *testing.T) {
 		sha, rip := specOf("sha256"), specOf("ripemd160")
 		v := specOf(sha3Variants[int(ev.Seed())%len(sha3Variants)])
 		w := specOf(sha3Variants[(int(ev.Seed())+1)%len(sha3Variants)])
-		sumJob(e(0), "bn254", sha.name, pick(sha.boundaryLengths(66), 6))
-		sumJob(e(1), "bls12-377", sha.name, pick(sha.boundaryLengths(66), 5))
-		sumJob(e(1), "bn254", rip.name, pick(rip.boundaryLengths(66), 6))
-		sumJob(e(0), "bls12-381", v.name, pick(v.boundaryLengths(v.block+1), 5))
-		sumJob(e(1), "bn254", w.name, pick(w.boundaryLengths(w.block+1), 4))
-		fixedJob(e(0), "bn254", "sha256", 66, 0)
-		fixedJob(e(1), "bn254", v.name, v.block+2, 0)
+		_ = w
+		sumJob(e(0), curveNames[int(ev.Seed())%len(curveNames)], sha.name, pick(sha.boundaryLengths(66), 5))
+		sumJob(e(1), "bn254", rip.name, pick(rip.boundaryLengths(66), 5))
+		sumJob(e(0), "bn254", v.name, pick(v.boundaryLengths(v.block+1), 4))
+		fixedJob(e(1), "bn254", "sha256", 66, 0)
+		fixedJob(e(0), "bn254", w.name, w.block+2, 0)
 	} else {
 		i := ev.Shard()
 		for _, s := range binSpecs {
@@ -1106,7 +1106,7 @@ func TestBinCompiled(t *testing.T) {
 		culprit BinBatch
 	}
 	rs := make([][]res, len(jobs))
-	parallel(len(jobs), 3, func(i int) {
+	parallel(len(jobs), 5, func(i int) {
 		for _, b := range jobs[i] {
 			v, c, d := checkBin(b)
 			rs[i] = append(rs[i], res{v, d, c})
